@@ -37,7 +37,20 @@ func isPtrToNamed(t types.Type, pkgPath, name string) bool {
 
 func constInt(v ssa.Value) (int64, bool) {
 	c, ok := v.(*ssa.Const)
-	if !ok || c.Value == nil {
+	if !ok {
+		// arithmetic over constants that go/ssa does not fold (operands that were variables
+		// in the source: inlined helper parameters bound to literals)
+		switch v.(type) {
+		case *ssa.BinOp, *ssa.Convert, *ssa.ChangeType, *ssa.UnOp:
+			if cv, okf := finExpr(v, nil, 0, nil, 0); okf && cv.Kind() == constant.Int {
+				if i, exact := constant.Int64Val(cv); exact {
+					return i, true
+				}
+			}
+		}
+		return 0, false
+	}
+	if c.Value == nil {
 		return 0, false
 	}
 	if c.Value.Kind() != constant.Int {
@@ -478,7 +491,16 @@ func loadedField(v ssa.Value) *types.Var {
 		switch x := v.(type) {
 		case *ssa.UnOp:
 			if x.Op == token.MUL {
-				return fieldOfAddr(x.X)
+				if f := fieldOfAddr(x.X); f != nil {
+					return f
+				}
+				// a local assigned exactly once (possibly captured by a closure): the value assigned
+				if cell := cellOf(x.X); cell != nil && !cellEscapes(cell) {
+					if sts := cellStores(cell); len(sts) == 1 {
+						v = sts[0].Val
+						continue
+					}
+				}
 			}
 			return nil
 		case *ssa.Field:
@@ -643,8 +665,13 @@ func cmpOf(cond ssa.Value, pol bool) (Cmp, bool) {
 	return Cmp{Op: op, X: cond, Y: t}, true
 }
 
-// factsAt lists the comparisons known at the start of block b.
+// factsAt lists the comparisons known at the start of block b: the branch
+// edges that dominate b, plus what phi threading adds (threadedFacts).
 func factsAt(b *ssa.BasicBlock) []Cmp {
+	return factsAtDepth(b, 0)
+}
+
+func directFacts(b *ssa.BasicBlock) []Cmp {
 	var out []Cmp
 	for _, e := range domEdges(b) {
 		if c, ok := cmpOf(e.Cond, e.Pol); ok {
@@ -652,6 +679,219 @@ func factsAt(b *ssa.BasicBlock) []Cmp {
 		}
 	}
 	return out
+}
+
+var factsCache = map[*ssa.BasicBlock][]Cmp{}
+
+func factsAtDepth(b *ssa.BasicBlock, depth int) []Cmp {
+	if depth == 0 {
+		if f, ok := factsCache[b]; ok {
+			return f
+		}
+	}
+	out := directFacts(b)
+	if depth < 6 {
+		for _, j := range threadJoins(b, out) {
+			feas := feasiblePreds(j, out)
+			if len(feas) == 0 || len(feas) == len(j.Preds) {
+				continue
+			}
+			// facts common to every feasible way into the join
+			var common []Cmp
+			for n, i := range feas {
+				p := j.Preds[i]
+				fs := append(append([]Cmp{}, factsAtDepth(p, depth+1)...), edgeFactsOf(p, j)...)
+				if n == 0 {
+					common = fs
+					continue
+				}
+				keys := map[string]bool{}
+				for _, f := range fs {
+					keys[cmpKey(f)] = true
+				}
+				var keep []Cmp
+				for _, f := range common {
+					if keys[cmpKey(f)] {
+						keep = append(keep, f)
+					}
+				}
+				common = keep
+			}
+			out = append(out, common...)
+			if len(feas) == 1 {
+				// the other phis of the join have the value of that edge
+				for _, in := range j.Instrs {
+					phi, ok := in.(*ssa.Phi)
+					if !ok {
+						break
+					}
+					out = append(out, Cmp{Op: token.EQL, X: phi, Y: phi.Edges[feas[0]]})
+				}
+			}
+		}
+	}
+	if depth == 0 {
+		factsCache[b] = out
+	}
+	return out
+}
+
+func edgeFactsOf(from, to *ssa.BasicBlock) []Cmp {
+	iff := ifOf(from)
+	if iff == nil || len(from.Succs) != 2 || from.Succs[0] == from.Succs[1] {
+		return nil
+	}
+	if c, ok := cmpOf(iff.Cond, from.Succs[0] == to); ok {
+		return []Cmp{c}
+	}
+	return nil
+}
+
+func valKey(v ssa.Value) string {
+	if c, ok := v.(*ssa.Const); ok {
+		return "const:" + c.String()
+	}
+	return fmt.Sprintf("%p", v)
+}
+
+func cmpKey(c Cmp) string { return c.Op.String() + "|" + valKey(c.X) + "|" + valKey(c.Y) }
+
+// threadJoins: the join blocks (not loop headers) that define a phi compared
+// in one of the facts and dominate b.
+func threadJoins(b *ssa.BasicBlock, facts []Cmp) []*ssa.BasicBlock {
+	var out []*ssa.BasicBlock
+	seen := map[*ssa.BasicBlock]bool{}
+	add := func(v ssa.Value) {
+		phi, ok := v.(*ssa.Phi)
+		if !ok {
+			return
+		}
+		j := phi.Block()
+		if seen[j] || j.Parent() != b.Parent() || !(j == b || j.Dominates(b)) {
+			return
+		}
+		for _, p := range j.Preds {
+			if j.Dominates(p) {
+				return // loop header: the phi mixes iterations
+			}
+		}
+		seen[j] = true
+		out = append(out, j)
+	}
+	for _, f := range facts {
+		add(f.X)
+		add(f.Y)
+	}
+	return out
+}
+
+// feasiblePreds: the predecessors through which join j can have been entered
+// given the facts (comparisons over phis of j that are constant on some
+// edges).  A predecessor is infeasible when some fact evaluates to false
+// with the phis replaced by that edge's values.
+func feasiblePreds(j *ssa.BasicBlock, facts []Cmp) []int {
+	var out []int
+	for i := range j.Preds {
+		ok := true
+		for _, f := range facts {
+			x, y := f.X, f.Y
+			sub := false
+			if phi, isPhi := x.(*ssa.Phi); isPhi && phi.Block() == j {
+				x, sub = phi.Edges[i], true
+			}
+			if phi, isPhi := y.(*ssa.Phi); isPhi && phi.Block() == j {
+				y, sub = phi.Edges[i], true
+			}
+			if !sub {
+				continue
+			}
+			if holds, known := evalCmpConst(f.Op, x, y); known && !holds {
+				ok = false
+				break
+			}
+		}
+		if ok {
+			out = append(out, i)
+		}
+	}
+	return out
+}
+
+// evalCmpConst decides x op y when both sides are constants (booleans,
+// integers, nil) or one is nil and the other a value known to be non-nil.
+func evalCmpConst(op token.Token, x, y ssa.Value) (holds, known bool) {
+	cx, okx := x.(*ssa.Const)
+	cy, oky := y.(*ssa.Const)
+	nonNil := func(v ssa.Value) bool {
+		switch v.(type) {
+		case *ssa.MakeInterface, *ssa.Alloc, *ssa.MakeClosure, *ssa.MakeChan, *ssa.MakeMap, *ssa.MakeSlice, *ssa.Function:
+			return true
+		}
+		return false
+	}
+	if okx && oky {
+		if cx.Value == nil || cy.Value == nil {
+			eq := cx.Value == nil && cy.Value == nil
+			switch op {
+			case token.EQL:
+				return eq, true
+			case token.NEQ:
+				return !eq, true
+			}
+			return false, false
+		}
+		if cx.Value.Kind() == constant.Bool && cy.Value.Kind() == constant.Bool {
+			eq := constant.BoolVal(cx.Value) == constant.BoolVal(cy.Value)
+			switch op {
+			case token.EQL:
+				return eq, true
+			case token.NEQ:
+				return !eq, true
+			}
+			return false, false
+		}
+		if (cx.Value.Kind() == constant.Int || cx.Value.Kind() == constant.Float) && (cy.Value.Kind() == constant.Int || cy.Value.Kind() == constant.Float) {
+			return constant.Compare(cx.Value, op, cy.Value), true
+		}
+		return false, false
+	}
+	if okx && cx.Value == nil && nonNil(y) || oky && cy.Value == nil && nonNil(x) {
+		switch op {
+		case token.EQL:
+			return false, true
+		case token.NEQ:
+			return true, true
+		}
+	}
+	return false, false
+}
+
+// resolvePhiAt: the value a phi must have at block b given the facts there
+// (the join was entered through a single feasible predecessor).
+func resolvePhiAt(v ssa.Value, b *ssa.BasicBlock) ssa.Value {
+	for n := 0; n < 6; n++ {
+		phi, ok := v.(*ssa.Phi)
+		if !ok {
+			return v
+		}
+		found := false
+		for _, f := range factsAt(b) {
+			if f.Op == token.EQL && f.X == ssa.Value(phi) {
+				for _, e := range phi.Edges {
+					if e == f.Y {
+						v, found = f.Y, true
+					}
+				}
+			}
+			if found {
+				break
+			}
+		}
+		if !found {
+			return v
+		}
+	}
+	return v
 }
 
 // reachable computes the blocks reachable from b (b included) optionally
@@ -760,6 +1000,11 @@ func inAnyLoop(b *ssa.BasicBlock) bool {
 // and maximum number of instructions satisfying match.  Blocks satisfying
 // stop are not scanned.
 func pathCount(from *ssa.BasicBlock, match func(ssa.Instruction) bool, stop func(*ssa.BasicBlock) bool) (min, max int) {
+	if hasThreadableBranch(from.Parent()) {
+		if mn, mx, ok := pathCountThreaded(from, match, stop); ok {
+			return mn, mx
+		}
+	}
 	type res struct {
 		min, max int
 		ok       bool // some path from here reaches an exit or a stop block
@@ -1444,4 +1689,198 @@ func canonLoad(v ssa.Value) ssa.Value {
 		v = vs[0]
 	}
 	return v
+}
+
+// ---------------------------------------------------------------------------
+// phi threading in path enumeration: a branch on a phi that is constant on the
+// edge through which its join was entered on this very path has one feasible
+// successor (the `ok` / `err` results of an inlined helper).
+
+var threadableCache = map[*ssa.Function]bool{}
+
+func hasThreadableBranch(fn *ssa.Function) bool {
+	if fn == nil {
+		return false
+	}
+	if v, ok := threadableCache[fn]; ok {
+		return v
+	}
+	found := false
+	for _, b := range fn.Blocks {
+		iff := ifOf(b)
+		if iff == nil {
+			continue
+		}
+		c, _ := cmpOf(iff.Cond, true)
+		for _, v := range []ssa.Value{c.X, c.Y} {
+			if phi, ok := v.(*ssa.Phi); ok {
+				for _, e := range phi.Edges {
+					if _, isC := e.(*ssa.Const); isC {
+						found = true
+					}
+				}
+			}
+		}
+	}
+	threadableCache[fn] = found
+	return found
+}
+
+// feasibleSuccs: the successors of b that can be taken given through which
+// predecessor each join on the current path was entered.
+func feasibleSuccs(b *ssa.BasicBlock, taken map[*ssa.BasicBlock]int) []*ssa.BasicBlock {
+	iff := ifOf(b)
+	if iff == nil || len(b.Succs) != 2 {
+		return b.Succs
+	}
+	c, _ := cmpOf(iff.Cond, true)
+	res := func(v ssa.Value) ssa.Value {
+		for n := 0; n < 4; n++ {
+			phi, ok := v.(*ssa.Phi)
+			if !ok {
+				return v
+			}
+			i, have := taken[phi.Block()]
+			if !have {
+				return v
+			}
+			v = phi.Edges[i]
+		}
+		return v
+	}
+	x, y := res(c.X), res(c.Y)
+	if x == c.X && y == c.Y {
+		return b.Succs
+	}
+	holds, known := evalCmpConst(c.Op, x, y)
+	if !known {
+		return b.Succs
+	}
+	if holds {
+		return b.Succs[:1]
+	}
+	return b.Succs[1:]
+}
+
+func pathCountThreaded(from *ssa.BasicBlock, match func(ssa.Instruction) bool, stop func(*ssa.BasicBlock) bool) (min, max int, ok bool) {
+	steps := 0
+	any := false
+	onstack := map[*ssa.BasicBlock]bool{}
+	taken := map[*ssa.BasicBlock]int{}
+	overflow := false
+	exit := func(acc int) {
+		if !any || acc < min {
+			min = acc
+		}
+		if !any || acc > max {
+			max = acc
+		}
+		any = true
+	}
+	var walk func(b *ssa.BasicBlock, acc int)
+	walk = func(b *ssa.BasicBlock, acc int) {
+		steps++
+		if steps > 200000 {
+			overflow = true
+			return
+		}
+		if stop != nil && stop(b) && b != from {
+			exit(acc)
+			return
+		}
+		for _, in := range b.Instrs {
+			if match(in) {
+				acc++
+			}
+		}
+		if len(b.Succs) == 0 {
+			exit(acc)
+			return
+		}
+		onstack[b] = true
+		for _, s := range feasibleSuccs(b, taken) {
+			if isBackEdge(b, s) || onstack[s] {
+				if stop != nil && stop(s) {
+					exit(acc)
+				}
+				continue
+			}
+			idx, n := -1, 0
+			for i, p := range s.Preds {
+				if p == b {
+					idx = i
+					n++
+				}
+			}
+			old, had := taken[s]
+			if n == 1 {
+				taken[s] = idx
+			} else {
+				delete(taken, s)
+			}
+			walk(s, acc)
+			if had {
+				taken[s] = old
+			} else {
+				delete(taken, s)
+			}
+			if overflow {
+				break
+			}
+		}
+		onstack[b] = false
+	}
+	walk(from, 0)
+	if overflow {
+		return 0, 0, false
+	}
+	if !any {
+		return 0, 0, true
+	}
+	return min, max, true
+}
+
+// A valAt is one alternative of a merged value: the value V flows in over the
+// edge At -> Succ (Succ nil: V is used directly in block At).
+type valAt struct {
+	V    ssa.Value
+	At   *ssa.BasicBlock
+	Succ *ssa.BasicBlock
+}
+
+// facts known where the alternative is chosen.
+func (a valAt) facts() []Cmp {
+	fs := factsAt(a.At)
+	if a.Succ != nil {
+		fs = append(append([]Cmp{}, fs...), edgeFactsOf(a.At, a.Succ)...)
+	}
+	return fs
+}
+
+// alternativesAt expands phis (recursively, loop headers excluded) into the
+// values that can flow into v as used in block b, each with the edge on which
+// it is selected.
+func alternativesAt(v ssa.Value, b *ssa.BasicBlock) []valAt {
+	var out []valAt
+	var rec func(v ssa.Value, at, succ *ssa.BasicBlock, depth int)
+	rec = func(v ssa.Value, at, succ *ssa.BasicBlock, depth int) {
+		phi, ok := v.(*ssa.Phi)
+		if ok && depth < 6 {
+			header := false
+			for _, p := range phi.Block().Preds {
+				if phi.Block().Dominates(p) {
+					header = true
+				}
+			}
+			if !header {
+				for i, e := range phi.Edges {
+					rec(e, phi.Block().Preds[i], phi.Block(), depth+1)
+				}
+				return
+			}
+		}
+		out = append(out, valAt{v, at, succ})
+	}
+	rec(v, b, nil, 0)
+	return out
 }
